@@ -271,6 +271,12 @@ func cellFromCellBlock(b []byte) (*pb.Cell, uint32, error) {
 }
 
 func deserializeCellBlocks(b []byte, cellsLen uint32) ([]*pb.Cell, uint32, error) {
+	// the smallest KeyValue, with its length prefix, takes 24 bytes
+	if uint64(cellsLen)*24 > uint64(len(b)) {
+		return nil, 0, fmt.Errorf(
+			"buffer is too small: expected at least %d for %d cells, got %d",
+			uint64(cellsLen)*24, cellsLen, len(b))
+	}
 	cells := make([]*pb.Cell, cellsLen)
 	var readLen uint32
 	for i := 0; i < int(cellsLen); i++ {
